@@ -606,10 +606,9 @@ Init ==
   /\ pending = I.pending /\ now = I.now /\ outcome = I.outcome /\ obs = I.obs
   /\ effecting = I.effecting /\ nextRef = I.nextRef /\ owner = I.owner /\ backend = I.backend
 
-Next ==
-  \/ \E w \in Workers : \E k \in 0..Len(cmdQ[w]), fuel \in 0..MaxFuel : WorkerStep(w, k, fuel)
-  \/ \E w \in Workers : EnvHandle(w)
-  \/ Tick(1)
+WorkerAct == \E w \in Workers : \E k \in 0..Len(cmdQ[w]), fuel \in 0..MaxFuel : WorkerStep(w, k, fuel)
+EnvAct == \E w \in Workers : EnvHandle(w)
+Next == WorkerAct \/ EnvAct \/ Tick(1)
 
 Spec == Init /\ [][Next]_vars
 =============================================================================
